@@ -29,6 +29,15 @@ Definition boolab_crashes (c : string) : bool :=
   boolability_else_raises && negb (String.eqb c "MultiValuedValue") && negb (mem_str c boolability_unwrapped)
   && crashes value_hierarchy boolability_handled c.
 
+(* Unwrapping (AnnotatedValue -> its value, TypeVarValue -> its fallback) can produce a value of ANY
+   class, in particular a MultiValuedValue (a TypeVar with constraints): does _get_boolability_no_mvv
+   survive that?  Either the chain has a branch for it or it hands the union back to get_boolability
+   (Gen.Total.boolability_delegated).  False on the unchanged tree: `if x:` for x: Optional[AnyStr]
+   reaches `assert False` (fix proposal repo_fixes/C12-boolability-typevar-in-union). *)
+Definition boolab_unwrapped_union_crashes : bool :=
+  boolability_else_raises && negb (mem_str "MultiValuedValue" boolability_delegated)
+  && crashes value_hierarchy boolability_handled "MultiValuedValue".
+
 (* classes without a branch; none of them is produced for a condition by the
    visitor (explored, not proved) *)
 Definition boolab_guard : list string :=
@@ -178,3 +187,12 @@ Proof.
     repeat match goal with |- context [if ?c then _ else _] => let E := fresh "E" in destruct c eqn:E end;
     try reflexivity; nat_bools; try lia; exfalso; nat_bools; lia.
 Qed.
+
+(* the unwrapped-union case is decided by the generated flag: crashing iff not delegated (and no branch) *)
+Lemma boolab_unwrapped_union_status :
+  boolab_unwrapped_union_crashes = negb (mem_str "MultiValuedValue" boolability_delegated)
+                                   && boolability_else_raises && crashes value_hierarchy boolability_handled "MultiValuedValue".
+Proof. unfold boolab_unwrapped_union_crashes. destruct boolability_else_raises, (mem_str "MultiValuedValue" boolability_delegated); reflexivity. Qed.
+
+Lemma delegation_suffices : mem_str "MultiValuedValue" boolability_delegated = true -> boolab_unwrapped_union_crashes = false.
+Proof. intros H. unfold boolab_unwrapped_union_crashes. rewrite H. destruct boolability_else_raises; reflexivity. Qed.
